@@ -77,7 +77,9 @@ func (f *InputField) Resolve(field *Field, args map[string]interface{}) (result 
 		result = f.Type
 	case defaultValueStr:
 		result = f.Default
-		switch result.(type) {
+		switch tv := result.(type) {
+		case Symbol:
+			result = string(tv)
 		case []interface{}, map[string]interface{}:
 			// A list or an object can only be given as it is written in SDL.
 			var b strings.Builder
